@@ -1460,6 +1460,11 @@ class ConstBCBase(BCBase):
                 )
                 raise ValueError(msg)
 
+        if np.issubdtype(result.dtype, np.integer):
+            # avoid overflow and wrap-around of (narrow or unsigned) integer types in
+            # the arithmetic of the boundary conditions, e.g., in `2 * value`
+            result = result.astype(float)
+
         # check consistency
         if np.any(np.isnan(result)):
             _logger.warning("In valid values in %s", self)
